@@ -137,6 +137,7 @@ pub struct Translator {
     pub impls: Vec<ImplRow>,
     pub rejects: Vec<Reject>,
     pub aliases: HashMap<String, HashMap<String, String>>, // stem -> alias -> struct
+    pub free_fns: HashMap<String, String>, // top-level fn name -> stem of the file defining it
     pub indicators: Vec<String>, // structs with impl Reset, in order
     pub gate: Vec<Reject>,
 }
@@ -169,6 +170,7 @@ impl Translator {
             impls: vec![],
             rejects: vec![],
             aliases: HashMap::new(),
+            free_fns: HashMap::new(),
             indicators: vec![],
             gate: vec![],
         }
@@ -423,6 +425,13 @@ impl Translator {
 
     pub fn run(&mut self, files: &[SrcFile], extra: &[SrcFile]) -> RunResult {
         self.collect(files, extra);
+        for f in files {
+            for it in &f.ast.items {
+                if let syn::Item::Fn(func) = it {
+                    self.free_fns.insert(func.sig.ident.to_string(), f.stem.clone());
+                }
+            }
+        }
         let order = self.topo(files);
         let mut modules = BTreeMap::new();
         let mut done_stems: Vec<String> = vec![];
@@ -455,8 +464,8 @@ impl Translator {
                         }
                     }
                 }
-                if id == "max3" {
-                    if let Some(&j) = stem_idx.get("Helpers") {
+                if let Some(st) = self.free_fns.get(id) {
+                    if let Some(&j) = stem_idx.get(st.as_str()) {
                         if j != i {
                             deps[i].insert(j);
                         }
@@ -494,8 +503,10 @@ impl Translator {
                     v.insert(si.stem.clone());
                 }
             }
-            if id == "max3" && f.stem != "Helpers" {
-                v.insert("Helpers".into());
+            if let Some(st) = self.free_fns.get(id) {
+                if *st != f.stem && done.contains(st) {
+                    v.insert(st.clone());
+                }
             }
         });
         v.into_iter().collect()
